@@ -159,6 +159,31 @@ func (env *Env) run(c *Case) *Result {
 		}
 		targetOpt = target
 		switch c.Opts.TargetOpt {
+		case "fsroot":
+			// the target directory is the file system root itself (only inside the chrooted worker, whose "/" is a scratch
+			// directory): the pre-state is made directly below "/", the option value is TargetRaw ("/", "//", "/.", "/x/..")
+			if !env.Chrooted {
+				res.Infra = "target fsroot needs the chrooted worker"
+				return res
+			}
+			if err := createEntries("/", c.FS.Pre); err != nil {
+				res.Infra = "fsroot pre-state: " + err.Error()
+				return res
+			}
+			tops := map[string]bool{}
+			for _, e := range c.FS.Pre {
+				tops[strings.SplitN(e.Path, "/", 2)[0]] = true
+			}
+			defer func() {
+				for t := range tops {
+					os.RemoveAll("/" + t)
+				}
+			}()
+			target = "/"
+			targetOpt = c.Opts.TargetRaw
+			if targetOpt == "" {
+				targetOpt = "/"
+			}
 		case "slash":
 			targetOpt = target + "/"
 		case "rel", "default", "raw", "short", "tilde":
@@ -262,7 +287,11 @@ func (env *Env) run(c *Case) *Result {
 	}
 
 	rd := &faultReader{doc: c.Doc, failAt: c.Faults.ReaderFailAt, mode: c.Faults.ReaderMode, chunk: c.Sched.ReadChunk,
-		yield: c.Sched.ReaderYield, cancelAt: -1, errv: FaultErr(ErrReader, c.Faults.ErrKind)}
+		yield: c.Sched.ReaderYield, cancelAt: -1, errv: FaultErr(ErrReader, c.Faults.ErrKind), blockAt: -1}
+	if c.Faults.ReaderBlock > 0 {
+		rd.blockAt = c.Faults.ReaderBlock - 1
+		rd.release = make(chan struct{})
+	}
 	if c.Cancel.Kind == "atOffset" {
 		rd.cancelAt = c.Cancel.K
 		rd.cancel = cancel
@@ -552,6 +581,10 @@ func (env *Env) run(c *Case) *Result {
 	rd.mu.Lock()
 	rd.returned = true
 	rd.mu.Unlock()
+	if rd.release != nil {
+		close(rd.release) // the idle input ends now (EOF or the rest of the document): a parked Read returns
+		res.ReaderParked = rd.blocked.Load()
+	}
 	res.CtxCancelled = cancelled.Load() || c.Cancel.Kind == "deadline"
 
 	res.Err = ErrInfo{Nil: err == nil}
